@@ -233,6 +233,7 @@ def validate(module, trace_path, workdir, cfg=None, shards=1, timeout=1200, env=
     """Run a Trace_* validator over an ndjson trace (optionally sharded over parallel JVMs).
     Returns (emits, consumed_all, stats). The validator is linear (one worker, depth-first queue)."""
     workdir = os.path.abspath(workdir)
+    os.makedirs(workdir, exist_ok=True)
     recs = read_ndjson(trace_path)
     if not recs:
         raise ToolError("empty trace " + trace_path)
